@@ -270,6 +270,38 @@ Section AggPushdown.
     - apply (NoDup_map_inv fst). apply ref_agg_keys_nodup.
     - intros [k v]. rewrite !ragg_in', value_distributes. reflexivity.
   Qed.
+  (* ---- any number of partitions ------------------------------------------------------- *)
+
+  Definition oplus (a b : option Z) : option Z :=
+    match a, b with Some x, Some y => Some (add x y) | None, y => y | x, None => x end.
+
+  Lemma afold_vals_app k A B : afold (vals k (A ++ B)) = oplus (afold (vals k A)) (afold (vals k B)).
+  Proof.
+    rewrite vals_app. destruct (vals k A) as [|a as'], (vals k B) as [|b bs].
+    - reflexivity.
+    - simpl app. rewrite (afold_cons b bs). reflexivity.
+    - rewrite app_nil_r, (afold_cons a as'). reflexivity.
+    - rewrite (afold_app a as' b bs), (afold_cons a as'), (afold_cons b bs). reflexivity.
+  Qed.
+
+  Lemma afold_vals_ragg k X : afold (vals k (ragg X)) = afold (vals k X).
+  Proof. rewrite vals_ragg. destruct (afold (vals k X)) as [v|]; [rewrite afold_cons; reflexivity|reflexivity]. Qed.
+
+  Lemma value_distributes_list (Xs : list (list (labels * Z))) k :
+    afold (vals k (concat Xs)) = afold (vals k (concat (map (fun X => ragg X) Xs))).
+  Proof.
+    induction Xs as [|X Xs IH]; simpl; [reflexivity|].
+    rewrite !afold_vals_app, afold_vals_ragg, IH. reflexivity.
+  Qed.
+
+  Theorem ref_agg_distributes_list (Xs : list (list (labels * Z))) :
+    Permutation (ragg (concat Xs)) (ragg (concat (map (fun X => ragg X) Xs))).
+  Proof.
+    apply NoDup_Permutation.
+    - apply (NoDup_map_inv fst). apply ref_agg_keys_nodup.
+    - apply (NoDup_map_inv fst). apply ref_agg_keys_nodup.
+    - intros [k v]. rewrite !ragg_in', value_distributes_list. reflexivity.
+  Qed.
 End AggPushdown.
 
 Section DistributedAgg.
@@ -466,3 +498,120 @@ Section DistributedCount.
     apply Permutation_sym. exact Pd.
   Qed.
 End DistributedCount.
+
+
+(* ---- any number of engines: Coalesce of n remote executions (nested two by two) --------------- *)
+
+Fixpoint jcoalesce (t : jtree) (rest : list jtree) : jtree :=
+  match rest with
+  | [] => t
+  | u :: r => JConcat t (jcoalesce u r)
+  end.
+
+Section DistributedAggN.
+  Variable cf : cfg.
+  Variable w : window.
+  Hypothesis HN : (0 < c_shards cf)%nat.
+  Hypothesis HB : (0 < c_batch cf)%nat.
+  Hypothesis Hlb : 0 <= c_lookback cf.
+  Hypothesis Hw : wf_window w.
+  Hypothesis Hstart : noT < w_start w.
+
+  Variable add : Z -> Z -> Z.
+  Hypothesis add_assoc : forall a b c, add (add a b) c = add a (add b c).
+  Hypothesis add_comm : forall a b, add a b = add b a.
+  Variable without : bool.
+  Variable grouping : list N.
+  Variable s : pshape.
+  Hypothesis Hs : sok s.
+
+  (* the partitions: labels and samples of each engine's series *)
+  Definition part_ok (p : list labels * list (list sample)) : Prop :=
+    length (fst p) = length (snd p) /\ Forall sorted_ts (snd p).
+
+  Let agg (t : jtree) : jtree := JAgg (fun v => v) add without grouping t.
+  Definition remote_of (p : list labels * list (list sample)) : jtree := JRemote (agg (inst s (fst p) (snd p))).
+
+  Lemma pref_concat lb (ps : list (list labels * list (list sample))) ts : Forall part_ok ps ->
+    pref lb s (concat (map fst ps)) (concat (map snd ps)) ts = concat (map (fun p => pref lb s (fst p) (snd p) ts) ps).
+  Proof.
+    induction ps as [|p ps IH]; intros Hok; simpl.
+    - induction s as [off pin|keep fn range off pin|drops f s0 IHs]; simpl; [reflexivity|reflexivity|].
+      rewrite IHs by assumption. reflexivity.
+    - inversion Hok as [|? ? [Hl Hso] Hok']; subst.
+      rewrite pref_app; [rewrite IH by assumption; reflexivity|assumption|].
+      clear IH. induction ps as [|q ps IHq]; simpl; [reflexivity|].
+      inversion Hok' as [|? ? [Hlq _] Hok'']; subst. rewrite !app_length, Hlq. f_equal. apply IHq; [constructor; [split; assumption|assumption]|assumption].
+  Qed.
+
+  Lemma parts_length l : Forall part_ok l -> length (concat (map fst l)) = length (concat (map snd l)).
+  Proof. induction 1 as [|q qs [Hq _] _ IH]; simpl; [reflexivity|]. rewrite !app_length, Hq, IH. reflexivity. Qed.
+
+  Lemma parts_sorted l : Forall part_ok l -> Forall sorted_ts (concat (map snd l)).
+  Proof. induction 1 as [|q qs [_ Hso] _ IH]; simpl; [constructor|]. apply Forall_app. split; assumption. Qed.
+
+  Lemma jref_concat lb A B ts :
+    jref lb (JConcat A B) ts = match jref lb A ts, jref lb B ts with Some a, Some b => Some (a ++ b) | _, _ => None end.
+  Proof. reflexivity. Qed.
+
+  Lemma jref_remote_of lb p ts :
+    jref lb (remote_of p) ts = Some (ref_agg (fun v => v) add without grouping (pref lb s (fst p) (snd p) ts)).
+  Proof. unfold remote_of, agg. cbn [jref]. rewrite jref_inst. reflexivity. Qed.
+
+  Lemma jref_coalesce lb (p : list labels * list (list sample)) ps ts :
+    jref lb (jcoalesce (remote_of p) (map remote_of ps)) ts =
+    Some (concat (map (fun q => ref_agg (fun v => v) add without grouping (pref lb s (fst q) (snd q) ts)) (p :: ps))).
+  Proof.
+    revert p. induction ps as [|q ps IH]; intros p.
+    - cbn [map jcoalesce concat]. rewrite jref_remote_of, app_nil_r. reflexivity.
+    - cbn [map jcoalesce]. rewrite jref_concat, jref_remote_of, (IH q). reflexivity.
+  Qed.
+
+  Lemma jok_coalesce (p : list labels * list (list sample)) ps : part_ok p -> Forall part_ok ps ->
+    jok (jcoalesce (remote_of p) (map remote_of ps)).
+  Proof.
+    destruct (laws add add_assoc add_comm) as [L1 L2].
+    assert (Hr : forall q, part_ok q -> jok (remote_of q)).
+    { intros q [Hl Hso]. unfold remote_of, agg, jok. simpl. split; [|split; assumption].
+      apply (jok_inst s (fst q) (snd q) Hs Hl Hso). }
+    revert p. induction ps as [|q ps IH]; intros p Hp Hps; simpl; [apply Hr; assumption|].
+    inversion Hps; subst. split; [apply Hr; assumption|apply IH; assumption].
+  Qed.
+
+  (* sum / max / min over the union of any number of partitions (empty ones included) and the same
+     aggregation of the engines' own aggregations *)
+  Theorem distributed_aggregation_equals_central_n (p : list labels * list (list sample)) ps ts :
+    part_ok p -> Forall part_ok ps -> In ts (grid w) ->
+    let central := agg (inst s (concat (map fst (p :: ps))) (concat (map snd (p :: ps)))) in
+    let distributed := agg (jcoalesce (remote_of p) (map remote_of ps)) in
+    exists outs_c outs_d,
+      jrun cf w central = inl outs_c /\ jrun cf w distributed = inl outs_d /\
+      Permutation (labelled Z (jseries central) (step_of outs_c ts))
+                  (labelled Z (jseries distributed) (step_of outs_d ts)).
+  Proof.
+    intros Hp Hps Hts central distributed. destruct (laws add add_assoc add_comm) as [L1 L2].
+    assert (Hall : Forall part_ok (p :: ps)) by (constructor; assumption).
+    assert (Hokc : jok central).
+    { unfold central, agg, jok. simpl jokw. split; [|split; assumption].
+      apply jok_inst; [assumption| |].
+      - exact (parts_length (p :: ps) Hall).
+      - exact (parts_sorted (p :: ps) Hall). }
+    assert (Hokd : jok distributed).
+    { unfold distributed, agg, jok. simpl jokw. split; [|split; assumption]. apply jok_coalesce; assumption. }
+    assert (Rc : jref (c_lookback cf) central ts =
+                 Some (ref_agg (fun v => v) add without grouping
+                               (concat (map (fun q => pref (c_lookback cf) s (fst q) (snd q) ts) (p :: ps))))).
+    { unfold central, agg. cbn [jref]. rewrite jref_inst, pref_concat by assumption. reflexivity. }
+    assert (Rd : jref (c_lookback cf) distributed ts =
+                 Some (ref_agg (fun v => v) add without grouping
+                               (concat (map (fun X => ref_agg (fun v => v) add without grouping X)
+                                            (map (fun q => pref (c_lookback cf) s (fst q) (snd q) ts) (p :: ps)))))).
+    { unfold distributed, agg. cbn [jref]. rewrite jref_coalesce, map_map. reflexivity. }
+    destruct (tree_step cf w HN HB Hlb Hw Hstart central _ ts Hokc Hts Rc) as [oc [Ec Pc]].
+    destruct (tree_step cf w HN HB Hlb Hw Hstart distributed _ ts Hokd Hts Rd) as [od [Ed Pd]].
+    exists oc, od. split; [exact Ec|]. split; [exact Ed|].
+    eapply Permutation_trans; [exact Pc|].
+    eapply Permutation_trans; [apply (ref_agg_distributes_list add add_assoc)|].
+    apply Permutation_sym. exact Pd.
+  Qed.
+End DistributedAggN.
